@@ -96,6 +96,30 @@ def worker_u(parents):
             H.get_field(prog, cb, 'CachedBlock', 'header').v = hdr(prog, i, ts.par.get(i, 0))
         ubref = Ref(Cell(ub))
         best = btc.chain_ids(it.call('unstable_blocks::get_main_chain', [ubref]))
+        # the range check on the real state: an open-ended request ends at the height of the served chain's tip, a request for
+        # that height is accepted and one for the next height is refused (the chain height comes from the real main_chain_height)
+        utx = H.mk_struct(prog, 'UtxoSet', utxos=Opaque('utxos'), network=btc.network(prog, 2), address_utxos=Opaque('au'), balances=Opaque('bal'),
+                          next_height=sh, should_time_slice=Opaque('sts'), ingesting_block=none())
+        dst = prog.src.find_adt(['GenericState'])
+        stv = dict(utxos=utx, unstable_blocks=ub)
+        state = Agg('GenericState', [Cell(stv.get(f, Opaque(f))) for f in dst.fields])
+        sref_ = Ref(Cell(state))
+        it.overrides['with_state'] = lambda it_, k, r, a: it_.call_value(a[0], [sref_])
+        tip_h = sh.t + len(best) - 1
+        for (st_, en_, want_ok) in ((sh.t, None, True), (tip_h, tip_h, True), (tip_h + 1, None, False), (sh.t, tip_h + 1, False)):
+            req = H.mk_struct(prog, 'ic_btc_interface::GetBlockHeadersRequest', start_height=SInt(st_, 'u32'),
+                              end_height=(some(SInt(en_, 'u32')) if en_ is not None else none()), network=Opaque('net'))
+            rr = it.call('verify_and_return_effective_range', [Ref(Cell(req))])
+            if (rr.variant == 0) != want_ok:
+                cands.add(kernel='u', role='range-check-disagrees-with-served-chain-height', ts=ts, model=it.model_ if it.feasible() else None, best=best,
+                          request=[str(st_), str(en_)], accepted=rr.variant == 0)
+                return
+            if want_ok and en_ is None:
+                eff = rr.fields[0].v
+                m = check_unsat(it, rep, z3.Or(zterm(eff.fields[0].v.t) != zterm(st_), zterm(eff.fields[1].v.t) != z3.If(tip_h < zterm(st_) + 99, tip_h, zterm(st_) + 99)))
+                if m is not None:
+                    cands.add(kernel='u', role='open-ended-range-does-not-end-at-the-served-tip', ts=ts, model=m, best=best)
+                    return
         a = it.choose(len(best), 'from')
         b = a + it.choose(len(best) - a, 'to')
         rng_ = Agg('RangeInclusive', [Cell(SInt(sh.t + a, 'u32')), Cell(SInt(sh.t + b, 'u32'))])
@@ -328,6 +352,18 @@ def confirm(cand, known):
             for k in known:
                 if k['id'] == 'C07-anchor-header-twice-during-ingestion' and k.get('status') == 'known' and cand['role'].endswith('-mid-ingestion'):
                     return 'known:' + k['id'], doc
+            return 'violation', doc
+        return 'not-reproduced', doc
+    if cand['kernel'] == 'u' and cand.get('shape') and cand.get('diffs'):
+        # the real endpoint on the real tree: an open-ended request from height 0 returns the served chain, one header per height
+        ts = btc.TreeScenario(list(cand['shape'][1]))
+        diffs = {int(k): v for k, v in cand['diffs'].items()}
+        res = C.run_native([dict(ops=native_ops(ts, diffs, thr=1000, extra=[dict(op='main_chain'), dict(op='headers', start=0)]))], tag='c07u')[0]
+        mc, hd = res[-2], res[-1]
+        doc['native'] = dict(main_chain=mc, headers=hd)
+        chain = mc.get('chain') if isinstance(mc, dict) else None
+        if not chain or 'err' in hd or hd.get('headers') != chain or hd.get('tip_height') != len(chain) - 1:
+            doc['problems'].append('served chain %s but get_block_headers(0, none) = %s' % (chain, hd))
             return 'violation', doc
         return 'not-reproduced', doc
     doc['problems'].append(cand['role'])
